@@ -49,9 +49,14 @@ def run(c: sym.Ctx, spec: Dict[str, Any], on_step: Any = None) -> Run:
     M = spec["M"]
     r.kinds = list(spec["kinds"])
     r.outcomes = list(spec["outcomes"])
-    A = c.int("A", 1) if spec["A"] == "sym" else (None if spec["A"] == "none" else spec["A"])
+    if spec["A"] == "sym":
+        A: Any = c.int("A", 1)
+    elif spec["A"] == "any":
+        A = c.int("A")  # every integer: values <= 0 mean "unlimited" for the receiver
+    else:
+        A = None if spec["A"] == "none" else spec["A"]
     P = c.int("P", 0) if spec["P"] == "sym" else spec["P"]
-    N = c.int("N", 1) if spec["N"] == "sym" else (None if spec["N"] == "none" else spec["N"])
+    N = c.int("N", 0) if spec["N"] == "sym0" else (c.int("N", 1) if spec["N"] == "sym" else (None if spec["N"] == "none" else spec["N"]))
     r.A, r.P, r.N, r.wtt = A, P, N, spec.get("wtt")
     failing_ids = {f"id{i}" for i in range(M) if r.outcomes[i] == "backend_fail"}
     cancelled_ids = {f"id{i}" for i in range(M) if r.outcomes[i] == "backend_cancelled"}
